@@ -26,6 +26,7 @@ def run(ctx):
         for fam in ("prf", "mac", "prfshort"):
             jobs.append((lpc, [fam, 0, 40 if t else 24], be))
     common.parallel(lambda j: common.run_harness(ctx, j[0], j[1], label=j[2]), jobs)
+    common.align_jobs(ctx, jobs, lambda j: j[2] in ("asm", "c64") and j[1][2] == 3)
     common.mid_lengths(ctx, ["prf-in", "prf-out", "hmac:0", "hmac:1", "kmac:0", "kmac:1"], ("asm", "c64", "c32", "dxor", "generic") if ctx.thorough else ("asm", "c32"))
     if ctx.thorough:
         common.huge_lengths(ctx, ["prf-in", "prf-out", "hmac:0", "hmac:1", "kmac:0", "kmac:1"])
